@@ -281,8 +281,15 @@ def _route_handler_ok(repo: Repo, m: ModuleInfo, ci: ClassInfo, fn: ast.Function
     # the grouped table replaces a run of ExactOriginLSC checkers: its key must be computed from the location exactly as the
     # checker computes what it compares with its origin (sibling agreement), otherwise the table answers for locations the
     # linear scan would not match (a tagged hint served by the provider of the bare type) and later providers are skipped
-    for t in tries:
-        keys = [a for a in t.body if isinstance(a, ast.Assign) and len(a.targets) == 1]
+    # the name the table is looked up with, and every assignment that is not the placeholder of an except handler
+    looked = {norm(c.args[0]) for c in ast.walk(fn) if isinstance(c, ast.Call) and isinstance(c.func, ast.Attribute) and c.func.attr == "get"
+              and len(c.args) == 1 and isinstance(c.args[0], ast.Name)}
+    in_handlers = {id(a) for hd in ast.walk(fn) if isinstance(hd, ast.ExceptHandler) for st in hd.body for a in ast.walk(st)}
+    key_assigns = [a for a in ast.walk(fn) if isinstance(a, ast.Assign) and len(a.targets) == 1 and norm(a.targets[0]) in looked
+                   and id(a) not in in_handlers]
+    if looked and not key_assigns:
+        raise AnalysisError(f"{qual}: the key of the grouped table is not assigned in the method")
+    for keys in ([key_assigns] if key_assigns else []):
         lsc = repo.mod("provider/loc_stack_filtering").classes.get("ExactOriginLSC")
         chk = lsc.methods.get("_check_location") if lsc is not None else None
         if chk is None:
